@@ -230,7 +230,12 @@ func runC06Stop(r *ev.Run) {
 	capped := false
 	for _, fen := range soloRoots {
 		for _, d := range depths {
-			_, _, polls := c06StopOne(s, fen, d, -1)
+			polls := 0
+			if p, _ := ev.Catch(func() { _, _, polls = c06StopOne(s, fen, d, -1) }); p != nil {
+				vsched.Solo = nil
+				fails = append(fails, fl{"stop/engine-panic", c06StopCase{fen, d, -1}, fmt.Sprintf("%s depth %d: the search panics: %v", fen, d, p)})
+				s = search.New(32000)
+			}
 			runs++
 			for i := 0; i <= polls && len(fails) < 3; i++ {
 				if time.Now().After(deadline) {
@@ -238,7 +243,13 @@ func runC06Stop(r *ev.Run) {
 					break
 				}
 				runs++
-				if cls, msg, _ := c06StopOne(s, fen, d, i); cls != "" {
+				var cls, msg string
+				if p, st := ev.Catch(func() { cls, msg, _ = c06StopOne(s, fen, d, i) }); p != nil {
+					vsched.Solo = nil
+					cls, msg = "stop/engine-panic", fmt.Sprintf("%s depth %d stop at poll %d (after %d searches on this instance): the search panics: %v\n%s", fen, d, i, runs, p, firstLines(st, 10))
+					s = search.New(32000)
+				}
+				if cls != "" {
 					fails = append(fails, fl{cls, c06StopCase{fen, d, i}, msg})
 				}
 			}
